@@ -461,8 +461,28 @@ def axiom_audit(ctx):
 
 
 # ------------------------------------------------------------------ run
+def prime_options():
+    """Earlier calls of the public functions with NON-default options (full border connectivity, anisotropic voxel spacing) in
+    every dimensionality: the property has no precondition on what the process did before, so module-level state they may
+    leave behind (caches keyed too coarsely) must not influence the default calls checked afterwards."""
+    _, assd_fn, _ = _impl()
+    for nd in (1, 2, 3):
+        shape = (7,) * nd
+        a = np.zeros(shape, np.uint8); b = np.zeros(shape, np.uint8)
+        a[tuple(slice(1, 5) for _ in range(nd))] = 1
+        b[tuple(slice(2, 6) for _ in range(nd))] = 1
+        for conn in range(nd, 0, -1):
+            for vs in (None, tuple(1.0 + 0.5 * i for i in range(nd))):
+                try:
+                    with np.errstate(all="ignore"):
+                        assd_fn(a, b, voxelspacing=vs, connectivity=conn)
+                except Exception:  # noqa
+                    pass
+
+
 def run(ctx):
     axiom_audit(ctx)
+    prime_options()
     rng = ctx.rng
     thorough = ctx.tier == "thorough"
     cases = []           # (bucket, ref, pred)
@@ -613,6 +633,7 @@ def replay(path):
     d = json.loads(open(path).read())
     ref, pred = common.arr_from_json(d["ref"]), common.arr_from_json(d["pred"])
     mode = d.get("mode", "direct")
+    prime_options()          # the same earlier non-default calls as in the run
     print("what:", d.get("what"))
     print("reference mask:\n", ref.astype(int))
     print("prediction mask:\n", pred.astype(int))
